@@ -5,8 +5,9 @@
  * Routes / judge_fwd  : feeds a batch of forward records (one parameter set, many peaks) to every implementation
                          route and compares each output with the oracle (C01)
  * judge_laws / judge_internal / judge_project / judge_inverse / judge_axis : reference-free laws (incl. the round trip of
-                         the forward routes through uncompute_g_vectors), detector projection, g -> angles and the
-                         gv_general conventions on the SpecAx records (C02)
+                         the forward routes through uncompute_g_vectors), Bragg's law of every route incl. the numba one,
+                         the arctan-free sin^2(theta) and PixelLUT (judge_lut), detector projection and the two round
+                         trips through every route, g -> angles and the gv_general conventions on the SpecAx records (C02)
 
 Comparison rule everywhere: |x - e| <= 1e-9 * scale + 1e-12 (scale = largest magnitude of the expected vector),
 angles modulo 360 at 1e-6 degree, eta not compared where (dy, dz) = (0, 0) exactly.
@@ -22,7 +23,7 @@ SPEC = "Geometry"
 REL = 1e-9
 ABS = 1e-12
 ANGTOL = 1e-6
-INVARIANTS = ("TypeOK", "StackOrtho", "NormLaw", "OmegaLaw", "OriginLaw", "Roundtrip", "EwaldBound", "AxisLaw", "Emit")
+INVARIANTS = ("TypeOK", "StackOrtho", "NormLaw", "OmegaLaw", "OriginLaw", "Roundtrip", "EwaldBound", "BraggLaw", "AxisLaw", "Emit")
 FWD_ACTIONS = ("PickSwitches", "PickDetector", "PickPeak", "Place", "Flip", "Tilt", "Shift", "Origin", "Diff",
                "RotateG", "Project")
 INV_ACTIONS = ("Origin", "Diff", "RotateG", "Uncompute")
@@ -153,13 +154,13 @@ class Oracle(object):
                 if F(sum(Gn[j][c] * dn[c] for c in range(3)), Gd * dd) != F(An[j], Ad):
                     raise common.MachineryError("record violates A = G d: %r" % (r,))
             n2 = sum(x * x for x in dn)
-            if n2 == 0:
+            self.xyz[i] = [xn[j] / float(xd) for j in range(3)]
+            self.org[i] = [on[j] / float(od) for j in range(3)]
+            if n2 == 0:                     # the grain sits on the pixel: no direction, the row is not judged
                 self.ok[i] = False
                 continue
             absd = D(n2).sqrt() / D(dd)
             dv = [D(x) / D(dd) for x in dn]
-            self.xyz[i] = [xn[j] / float(xd) for j in range(3)]
-            self.org[i] = [on[j] / float(od) for j in range(3)]
             self.d[i] = [float(x) for x in dv]
             u = [x / absd for x in dv]
             kk = [(u[0] - 1) / lam, u[1] / lam, u[2] / lam]
@@ -177,6 +178,10 @@ class Oracle(object):
                 self.eta[i] = math.degrees(math.atan2(-float(dv[1]), float(dv[2])))
             # cosine of incidence of the ray on the detector plane, n.d / |d|   (n.d = sden / snd[1])
             self.cosinc[i] = abs(float(D(r["sden"]) / D(r["snd"][1]) / absd))
+        # rows beyond two-theta = 90 degrees (d_x < 0), and the conditioning of the arctan-free sin^2(theta) there
+        self.back = self.ok & (self.d[:, 0] < 0)
+        self.sswiden = arctanfree_widen(self.d.T)
+        self._lab = None
         if perturb == "xyz":
             self.xyz[0, 1] += 1e-6 * max(1.0, abs(self.xyz[0]).max())
         elif perturb == "g":
@@ -184,16 +189,62 @@ class Oracle(object):
         elif perturb == "eta":
             self.eta[np.isfinite(self.eta)] += 1e-4
 
+    def lab_only(self):
+        """expected values of the pixel's lab vector alone (no grain translation: what a per-pixel look-up table holds):
+        dictionary of tth, eta (NaN where undefined), sinsqth, k (rows, 3), ok - finished in decimals from the exact xyz"""
+        if self._lab is None:
+            m = len(self.recs)
+            tth, eta, ssq, kk, ok = np.zeros(m), np.full(m, np.nan), np.zeros(m), np.zeros((m, 3)), np.ones(m, bool)
+            lam = D(self.par["wl"][0]) / D(self.par["wl"][1])
+            for i, r in enumerate(self.recs):
+                xn, xd = r["xyz"]
+                n2 = sum(x * x for x in xn)
+                if n2 == 0:
+                    ok[i] = False
+                    continue
+                absx = D(n2).sqrt()
+                u = [D(x) / absx for x in xn]
+                kk[i] = [float((u[0] - 1) / lam), float(u[1] / lam), float(u[2] / lam)]
+                ssq[i] = float((1 - u[0]) / 2)
+                tth[i] = math.degrees(math.atan2(float(D(xn[1] * xn[1] + xn[2] * xn[2]).sqrt()), float(xn[0])))
+                if xn[1] != 0 or xn[2] != 0:
+                    eta[i] = math.degrees(math.atan2(-float(xn[1]), float(xn[2])))
+            idx = np.arange(self.n) % m
+            self._lab = {"tth": tth[idx], "eta": eta[idx], "sinsqth": ssq[idx], "k": kk[idx], "ok": ok[idx]}
+        return self._lab
+
     def tiled(self, length):
         """the same batch repeated up to `length` rows (crosses the OpenMP chunking of the C loops)"""
         o = Oracle.__new__(Oracle)
         o.__dict__.update(self.__dict__)
         idx = np.arange(length) % self.n
-        for name in ("sc", "fc", "omega", "oms", "xyz", "org", "d", "k", "g", "tth", "eta", "ds", "sinsqth", "cosinc", "ok"):
+        for name in ("sc", "fc", "omega", "oms", "xyz", "org", "d", "k", "g", "tth", "eta", "ds", "sinsqth", "cosinc", "ok", "back",
+                     "sswiden"):
             setattr(o, name, np.ascontiguousarray(getattr(self, name)[idx]))
+        o._lab = None
         o.n = length
         o.recs = self.recs
         return o
+
+
+def arctanfree_widen(xyz):
+    """conditioning of the documented arctan-free form sin^2(theta) = R / (2 (Q + x sqrt(Q))), R = y^2 + z^2, Q = x^2 + R:
+    beyond two-theta = 90 degrees (x < 0) the denominator sqrt(Q) (sqrt(Q) + x) cancels, a rounding error eps becomes
+    eps 2 x^2 / R (1e-14 at two-theta = 170 degrees, unbounded towards 180).  The tolerance is widened by 1 + 4e-6 x^2/R
+    there (ten times that amplification at the 1e-9 tolerance); an error of the order of cos(two-theta) stays far outside"""
+    x, y, z = np.asarray(xyz, float)
+    R = y * y + z * z
+    with np.errstate(invalid="ignore", divide="ignore"):
+        w = np.where((x < 0) & (R > 0), 1.0 + 4e-6 * x * x / R, 1.0)
+    return w
+
+
+def arctanfree_undefined(xyz):
+    """the documented formula is 0/0 on the beam axis behind the sample (y = z = 0, x <= 0) and has lost every digit within
+    1e-6 rad of it (x^2/R >= 1e12: binary64 returns anything from 0.5 to inf there): not compared"""
+    x, y, z = np.asarray(xyz, float)
+    R = y * y + z * z
+    return (x <= 0) & (R * 1e12 <= x * x)
 
 
 class Judge(object):
@@ -234,6 +285,15 @@ class Judge(object):
                 self.worst = m
         if bad.any():
             self._report(label, bad, got, exp)
+
+    def sub(self, ok):
+        """a judge over another set of rows (e.g. the pixels of a look-up table); fold it back with absorb()"""
+        return Judge(np.asarray(ok, bool))
+
+    def absorb(self, other):
+        self.problems += other.problems
+        self.ncmp += other.ncmp
+        self.worst = max(self.worst, other.worst)
 
     def ang(self, label, got, exp, modulo=True, extra=None):
         got = np.asarray(got, float)
@@ -510,7 +570,7 @@ def _sec_py(ctx):
     back = (orc.d[:, 1] == 0) & (orc.d[:, 2] == 0) & (orc.d[:, 0] < 0)     # 0/0 in the documented formula
     keep = J.ok
     J.ok = J.ok & ~back
-    ctx.vec("transform.compute_sinsqth_from_xyz", s2, orc.sinsqth)
+    ctx.vec("transform.compute_sinsqth_from_xyz", s2, orc.sinsqth, widen=orc.sswiden)
     J.ok = keep
 
 
@@ -911,15 +971,7 @@ def roundtrip_uncompute(rt, J, label, gv, oms, orc, lam, wedge, chi, shift=0.0):
     """gv (n,3) computed by a forward route for the signed omegas `oms` of a t = 0 batch -> uncompute_g_vectors.
     Rows where the two solutions (nearly) coincide, g = 0 or eta is undefined are skipped.  returns rows judged"""
     n = orc.n
-    cw, sw = math.cos(math.radians(wedge)), math.sin(math.radians(wedge))
-    cc, sc = math.cos(math.radians(chi)), math.sin(math.radians(chi))
-    rx, ry, rz = cw, -sw * sc, -sw * cc                   # first row of WI.CI = Ry(-wedge).Rx(chi)
-    gam = lam * gv
-    ab2 = (rx * rx + ry * ry) * (gam[:, 0] ** 2 + gam[:, 1] ** 2)
-    cq = -(gam ** 2).sum(axis=1) / 2 - rz * gam[:, 2]
-    with np.errstate(invalid="ignore", divide="ignore"):
-        margin = np.where(ab2 > 1e-12, 1.0 - cq * cq / ab2, 0.0)
-        s = np.sqrt((gam ** 2).sum(axis=1)) / 2
+    margin, s = uncompute_margin(gv, lam, wedge, chi)
     sel = J.ok & np.isfinite(orc.eta) & (margin > 1e-6) & (s > 1e-9) & (s < 1 - 1e-9)
     if not sel.any():
         return 0
@@ -945,15 +997,82 @@ def roundtrip_uncompute(rt, J, label, gv, oms, orc, lam, wedge, chi, shift=0.0):
     return int(sel.sum())
 
 
-def judge_internal(rt, orc):
-    """route-internal laws that hold for every batch, whatever the grain translation:
+LUT_SHAPE = (31, 32)        # covers the four peak positions of the lattice (two of them are whole pixels)
+
+
+def _det_of(P):
+    return {k: P[k] for k in ("y_center", "y_size", "tilt_y", "z_center", "z_size", "tilt_z", "tilt_x", "distance",
+                              "o11", "o12", "o21", "o22")}
+
+
+def numba_gve(rt, P, sc, fc, oms, t=None):
+    """g-vectors of the numba route point_by_point.compute_gve (rows, 3); oms = signed omega"""
+    t = (P["t_x"], P["t_y"], P["t_z"]) if t is None else t
+    return rt.pbp.compute_gve(np.ascontiguousarray(sc, float), np.ascontiguousarray(fc, float), np.ascontiguousarray(oms, float),
+                              np.zeros(len(sc)), P["distance"], P["y_center"], P["y_size"], P["tilt_y"], P["z_center"],
+                              P["z_size"], P["tilt_z"], P["tilt_x"], P["o11"], P["o12"], P["o21"], P["o22"],
+                              t[0], t[1], t[2], P["wedge"], P["chi"], P["wavelength"]).T
+
+
+def judge_lut(rt, J, orc, stats=None, perturb=None):
+    """transform.PixelLUT of the batch's parameters (one value per detector pixel, no grain translation): at the whole
+    pixels of the lattice xyz, tth, eta, k, sinthsq are the record's exact values; on EVERY pixel of the table the three
+    quantities it holds obey Bragg's law among themselves: sinthsq = sin^2(tth/2), |k| = 2 sqrt(sinthsq)/lambda"""
+    P = orc.P
+    lam = P["wavelength"]
+    pars = dict(P, shape=LUT_SHAPE)
+    try:
+        with np.errstate(invalid="ignore", divide="ignore"):         # (0/0 on the beam axis behind the sample)
+            lut = rt.transform.PixelLUT(pars)
+    except Exception as e:
+        J.problems.append("transform.PixelLUT raised %s: %s" % (type(e).__name__, str(e)[:300]))
+        return
+    lab = orc.lab_only()
+    si, fi = np.round(orc.sc).astype(int), np.round(orc.fc).astype(int)
+    whole = orc.ok & (si == orc.sc) & (fi == orc.fc) & (si >= 0) & (fi >= 0) & (si < LUT_SHAPE[0]) & (fi < LUT_SHAPE[1]) & lab["ok"]
+    si, fi = np.where(whole, si, 0), np.where(whole, fi, 0)
+    keep = J.ok
+    J.ok = whole
+    J.vec("PixelLUT.xyz at the whole pixels", lut.xyz[:, si, fi].T, orc.xyz)
+    J.ang("PixelLUT.tth at the whole pixels", lut.tth[si, fi], lab["tth"], modulo=False)
+    J.ang("PixelLUT.eta at the whole pixels", lut.eta[si, fi], lab["eta"])
+    J.vec("PixelLUT.k at the whole pixels", lut.k[:, si, fi].T, lab["k"])
+    und = arctanfree_undefined(orc.xyz.T)
+    J.ok = whole & ~und
+    J.vec("PixelLUT.sinthsq at the whole pixels = sin^2(theta) of the model", lut.sinthsq[si, fi],
+          lab["sinsqth"] * (1 + 1e-7 if perturb == "lut" else 1), widen=arctanfree_widen(orc.xyz.T))
+    J.ok = keep
+    # every pixel of the table
+    xyz = lut.xyz.reshape(3, -1)
+    ok = ~arctanfree_undefined(xyz)
+    JL = J.sub(ok)
+    wd = arctanfree_widen(xyz)
+    ssq = lut.sinthsq.ravel()
+    with np.errstate(invalid="ignore"):
+        JL.vec("PixelLUT: sinthsq = sin^2(tth/2) on every pixel", ssq, np.sin(np.radians(lut.tth.ravel()) / 2) ** 2, widen=wd)
+        modk = np.sqrt((lut.k.reshape(3, -1) ** 2).sum(axis=0))
+        JL.vec("PixelLUT: |k| = 2 sqrt(sinthsq)/lambda on every pixel", modk, 2 * np.sqrt(ssq) / lam, widen=wd)
+    J.absorb(JL)
+    if stats is not None:
+        stats["lut_whole_pixel_rows"] = stats.get("lut_whole_pixel_rows", 0) + int(whole.sum())
+        stats["lut_pixels"] = stats.get("lut_pixels", 0) + int(ok.sum())
+        stats["lut_pixels_beyond_90"] = stats.get("lut_pixels_beyond_90", 0) + int((ok & (xyz[0] < 0)).sum())
+
+
+def judge_internal(rt, orc, stats=None, perturb=None, dear=True):
+    """Bragg's law on every batch, whatever the grain translation and on both sides of two-theta = 90 degrees:
     ds = 2 sin(tth/2)/lambda = |g| on the columns of columnfile fast / slow, Ctransform.xyz2geometry, the raw
-    compute_geometry kernel and refinegrains.compute_gv (tth, gv)"""
+    compute_geometry kernel, refinegrains.compute_gv (tth, gv) and the numba route (compute_tth_eta, compute_gve), and
+    each of them equal to the model's exact 2 sin(theta)/lambda; the arctan-free sin^2(theta) (compute_sinsqth_from_xyz,
+    sinth2_sqrt_deriv) of the exact lab vector and of the route's own chain; transform.PixelLUT.
+    dear = False leaves out the columnfile / refinegrains / PixelLUT objects (for seeded subsets of the one-peak batches)"""
     J = Judge(orc.ok)
     P = orc.P
     n = orc.n
+    tr = rt.transform
     lam = P["wavelength"]
     t = (P["t_x"], P["t_y"], P["t_z"])
+    eds = orc.ds * (1 + 1e-7 if perturb == "ds" else 1)
 
     def law(label, tth, ds, g):
         bragg = 2 * np.sin(np.radians(np.asarray(tth, float)) / 2) / lam
@@ -963,12 +1082,14 @@ def judge_internal(rt, orc):
             J.vec("%s: |g| = ds" % label, modg, ds)
         else:
             J.vec("%s: |g| = 2 sin(tth/2)/lambda" % label, modg, bragg)
-    for fast in (True, False):
-        cf = rt.columnfile.colfile_from_dict({"sc": orc.sc.copy(), "fc": orc.fc.copy(), "omega": orc.omega.copy()})
-        cf.parameters = rt.parameters.parameters(**P)
-        cf.updateGeometry(fast=fast)
-        law("columnfile.updateGeometry(fast=%s)" % fast, cf.tth, cf.ds, np.array([cf.gx, cf.gy, cf.gz]).T)
-    ct = rt.transform.Ctransform(P)
+        J.vec("%s: |g| = 2 sin(theta)/lambda of the model" % label, modg, eds)
+    if dear:
+        for fast in (True, False):
+            cf = rt.columnfile.colfile_from_dict({"sc": orc.sc.copy(), "fc": orc.fc.copy(), "omega": orc.omega.copy()})
+            cf.parameters = rt.parameters.parameters(**P)
+            cf.updateGeometry(fast=fast)
+            law("columnfile.updateGeometry(fast=%s)" % fast, cf.tth, cf.ds, np.array([cf.gx, cf.gy, cf.gz]).T)
+    ct = tr.Ctransform(dict(P))
     xyz = ct.sf2xyz(orc.sc, orc.fc)
     geo = ct.xyz2geometry(xyz, orc.omega, t[0], t[1], t[2])
     law("Ctransform.xyz2geometry", geo[:, 0], geo[:, 2], geo[:, 3:6])
@@ -976,7 +1097,7 @@ def judge_internal(rt, orc):
     rt.c.compute_geometry(np.ascontiguousarray(orc.xyz), orc.omega, P["omegasign"], lam, P["wedge"], P["chi"], np.array(t), geo)
     law("cImageD11.compute_geometry", geo[:, 0], geo[:, 2], geo[:, 3:6])
     for rg, lab in ((rt.rg_plain, "refinegrains.compute_gv(OmFloat=False)"),
-                    (rt.rg_float, "refinegrains.compute_gv(OmFloat=True, OmSlop=0)")):
+                    (rt.rg_float, "refinegrains.compute_gv(OmFloat=True, OmSlop=0)")) if dear else ():
         rg.parameterobj = rt.parameters.parameters(**P)
         gr = _Grain()
         gr.peaks_xyz = np.ascontiguousarray(orc.xyz)
@@ -988,6 +1109,43 @@ def judge_internal(rt, orc):
         with contextlib.redirect_stdout(io.StringIO()), np.errstate(invalid="ignore", divide="ignore"):
             rg.compute_gv(gr)
         law(lab, rg.tth, None, rg.gv)
+    # the numba route, with the batch's own translation, wedge and chi (exact zeros where a switch is off)
+    if rt.pbp is not None:
+        tthn, etan = rt.pbp.compute_tth_eta(orc.sc, orc.fc, orc.oms, t_x=t[0], t_y=t[1], t_z=t[2], wedge=P["wedge"],
+                                            chi=P["chi"], **_det_of(P))
+        law("point_by_point.compute_tth_eta / compute_gve", tthn, None, numba_gve(rt, P, orc.sc, orc.fc, orc.oms))
+        if stats is not None:
+            stats["numba_internal_rows"] = stats.get("numba_internal_rows", 0) + int(J.ok.sum())
+            if any(t):
+                stats["numba_internal_rows_t_nonzero"] = stats.get("numba_internal_rows_t_nonzero", 0) + int(J.ok.sum())
+    # the arctan-free sin^2(theta): of the model's exact lab vector d, and of the route's own chain xyz - origin
+    und = arctanfree_undefined(orc.d.T)
+    keep = J.ok
+    J.ok = keep & ~und
+    dd = np.ascontiguousarray(orc.d.T)
+    essq = orc.sinsqth * (1 + 1e-7 if perturb == "ssq" else 1)
+    with np.errstate(invalid="ignore", divide="ignore"):
+        s2 = tr.compute_sinsqth_from_xyz(dd)
+        s2d = tr.sinth2_sqrt_deriv(dd)[0]
+        xyzp = tr.compute_xyz_lab(np.array([orc.sc, orc.fc]), **P)
+        s2c = tr.compute_sinsqth_from_xyz(xyzp - tr.compute_grain_origins(orc.oms, wedge=P["wedge"], chi=P["chi"], t_x=t[0],
+                                                                           t_y=t[1], t_z=t[2]))
+        tthp, etap = tr.compute_tth_eta_from_xyz(dd, None)
+    J.vec("transform.compute_sinsqth_from_xyz(d) = sin^2(theta) of the model", s2, essq, widen=orc.sswiden)
+    J.vec("transform.sinth2_sqrt_deriv(d)[0] = sin^2(theta) of the model", s2d, essq, widen=orc.sswiden)
+    J.vec("transform.compute_sinsqth_from_xyz(compute_xyz_lab - compute_grain_origins) = sin^2(theta) of the model", s2c, essq,
+          widen=orc.sswiden)
+    with np.errstate(invalid="ignore"):
+        J.vec("2 sqrt(compute_sinsqth_from_xyz(d))/lambda = 2 sin(theta)/lambda of the model", 2 * np.sqrt(s2) / lam, eds,
+              widen=orc.sswiden)
+    J.vec("compute_sinsqth_from_xyz(d) = sin^2(tth/2) of compute_tth_eta_from_xyz(d)", s2, np.sin(np.radians(tthp) / 2) ** 2,
+          widen=orc.sswiden)
+    J.ok = keep
+    if stats is not None:
+        stats["sinsqth_rows"] = stats.get("sinsqth_rows", 0) + int((keep & ~und).sum())
+        stats["sinsqth_rows_beyond_90"] = stats.get("sinsqth_rows_beyond_90", 0) + int((keep & ~und & orc.back).sum())
+    if dear:
+        judge_lut(rt, J, orc, stats=stats, perturb=perturb)
     return J
 
 
@@ -1014,6 +1172,13 @@ def judge_laws(rt, orc, rng, perturb=None, stats=None):
     if perturb == "bragg":
         bragg = bragg * (1 + 1e-7)
     J.vec("Bragg: 2 sin(theta)/lambda from compute_tth_eta_from_xyz vs the oracle's ds", bragg, orc.ds)
+    und = arctanfree_undefined(xyz.T)
+    keep = J.ok
+    J.ok = keep & ~und
+    with np.errstate(invalid="ignore", divide="ignore"):
+        J.vec("Bragg: 2 sqrt(compute_sinsqth_from_xyz)/lambda vs the oracle's ds",
+              2 * np.sqrt(tr.compute_sinsqth_from_xyz(xyz.T.copy())) / lam, orc.ds, widen=orc.sswiden)
+    J.ok = keep
     for (w, c, sg) in variants:
         tag = "(wedge=%.6g chi=%.6g omegasign=%g)" % (w, c, sg)
         for which, omv in (("omega1", om1), ("omega2", om2)):
@@ -1083,17 +1248,39 @@ def judge_laws(rt, orc, rng, perturb=None, stats=None):
 # ------------------------------------------------------------------------------------------------
 # C02 (iii): projection onto the detector and back
 
-def judge_project(rt, orc, perturb=None, stats=None):
+def uncompute_margin(gv, lam, wedge, chi):
+    """conditioning of g -> omega: 1 - c^2/(a^2 + b^2) of a sin x + b cos x = c (0 where a = b = 0) and |lambda g|/2"""
+    cw, sw = math.cos(math.radians(wedge)), math.sin(math.radians(wedge))
+    cc, sc = math.cos(math.radians(chi)), math.sin(math.radians(chi))
+    rx, ry, rz = cw, -sw * sc, -sw * cc                   # first row of WI.CI = Ry(-wedge).Rx(chi)
+    gam = lam * np.asarray(gv, float)
+    ab2 = (rx * rx + ry * ry) * (gam[:, 0] ** 2 + gam[:, 1] ** 2)
+    cq = -(gam ** 2).sum(axis=1) / 2 - rz * gam[:, 2]
+    with np.errstate(invalid="ignore", divide="ignore"):
+        margin = np.where(ab2 > 1e-12, 1.0 - cq * cq / ab2, 0.0)
+        s = np.sqrt((gam ** 2).sum(axis=1)) / 2
+    return margin, s
+
+
+def judge_project(rt, orc, perturb=None, stats=None, dear=True):
+    """(tth, eta, omega, grain position) -> compute_xyz_from_tth_eta -> pixel -> back to the angles through every route
+    (reference, Ctransform, columnfile fast / slow, numba), and g -> uncompute_g_vectors -> the peak's solution ->
+    compute_xyz_from_tth_eta -> pixel -> forward through every route -> g.  Runs on every forward batch, i.e. with the
+    batch's own wedge / chi / translation (exact zeros where a switch is off).  dear = False leaves out the columnfile
+    objects"""
     J = Judge(orc.ok)
     P = orc.P
     tr = rt.transform
+    n = orc.n
+    lam = P["wavelength"]
+    sgn = P["omegasign"]
+    t = (P["t_x"], P["t_y"], P["t_z"])
     sel = orc.ok & (orc.cosinc > 0)
     if not sel.any():
         return J, 0
     J.ok = sel
     eta = np.where(np.isfinite(orc.eta), orc.eta, 0.0)
-    det = {k: P[k] for k in ("y_center", "y_size", "tilt_y", "z_center", "z_size", "tilt_z", "tilt_x", "distance",
-                             "o11", "o12", "o21", "o22")}
+    det = _det_of(P)
     with np.errstate(invalid="ignore", divide="ignore"):
         fc, sc = tr.compute_xyz_from_tth_eta(orc.tth, eta, orc.oms, t_x=P["t_x"], t_y=P["t_y"], t_z=P["t_z"],
                                              wedge=P["wedge"], chi=P["chi"], **det)
@@ -1104,13 +1291,32 @@ def judge_project(rt, orc, perturb=None, stats=None):
     esc = orc.sc + (1e-5 if perturb == "pixel" else 0.0)
     J.vec("compute_xyz_from_tth_eta slow pixel", sc, esc, widen=widen)
     J.vec("compute_xyz_from_tth_eta fast pixel", fc, orc.fc, widen=widen)
-    with np.errstate(invalid="ignore", divide="ignore"):
-        tth2, eta2 = tr.compute_tth_eta(np.array([np.where(sel, sc, 0.0), np.where(sel, fc, 0.0)]), omega=orc.oms, **P)
+    pxs, pxf = np.where(sel, sc, 0.0), np.where(sel, fc, 0.0)
     # an error dp of the pixel moves the angles by about dp * pixel / |d|
     extra = np.degrees((REL * np.maximum(np.abs(orc.sc), np.abs(orc.fc)) + ABS) * widen * max(abs(P["y_size"]),
                        abs(P["z_size"])) / np.maximum(absd * np.maximum(np.sin(np.radians(orc.tth)), 1e-3), 1e-300))
-    J.ang("compute_tth_eta(compute_xyz_from_tth_eta) tth", tth2, orc.tth, modulo=False, extra=extra)
-    J.ang("compute_tth_eta(compute_xyz_from_tth_eta) eta", eta2, orc.eta, extra=extra)
+
+    def back(label, tth2, eta2):
+        J.ang("%s(compute_xyz_from_tth_eta) tth" % label, tth2, orc.tth + (1e-4 if perturb == "back" else 0.0), modulo=False,
+              extra=extra)
+        J.ang("%s(compute_xyz_from_tth_eta) eta" % label, eta2, orc.eta, extra=extra)
+    with np.errstate(invalid="ignore", divide="ignore"):
+        back("compute_tth_eta", *tr.compute_tth_eta(np.array([pxs, pxf]), omega=orc.oms, **P))
+        ct = tr.Ctransform(dict(P))
+        geo = ct.xyz2geometry(ct.sf2xyz(pxs.copy(), pxf.copy()), orc.omega.copy(), t[0], t[1], t[2])
+        back("Ctransform.xyz2geometry", geo[:, 0], geo[:, 1])
+        for fast in (True, False) if dear else ():
+            cf = rt.columnfile.colfile_from_dict({"sc": pxs.copy(), "fc": pxf.copy(), "omega": orc.omega.copy()})
+            cf.parameters = rt.parameters.parameters(**P)
+            cf.updateGeometry(fast=fast)
+            back("columnfile.updateGeometry(fast=%s)" % fast, cf.tth, cf.eta)
+        if rt.pbp is not None:
+            back("point_by_point.compute_tth_eta", *rt.pbp.compute_tth_eta(pxs, pxf, orc.oms, t_x=t[0], t_y=t[1], t_z=t[2],
+                                                                           wedge=P["wedge"], chi=P["chi"], **det))
+            if stats is not None:
+                stats["projection_numba_rows"] = stats.get("projection_numba_rows", 0) + int(sel.sum())
+                if any(t):
+                    stats.setdefault("projection_numba_switch_sets_t_nonzero", set()).add(tuple(orc.par["sw"]))
     # edge arm: the same ray alone (a batch of one row) lands on the same pixel
     i0 = int(np.nonzero(sel)[0][-1])
     with np.errstate(invalid="ignore", divide="ignore"):
@@ -1122,8 +1328,67 @@ def judge_project(rt, orc, perturb=None, stats=None):
     J.vec("compute_xyz_from_tth_eta (one-row batch) slow pixel", np.where(one, s1[0], 0.0), esc, widen=widen)
     J.vec("compute_xyz_from_tth_eta (one-row batch) fast pixel", np.where(one, f1[0], 0.0), orc.fc, widen=widen)
     J.ok = sel
+    # g -> angles -> detector -> g : the model's exact g-vector goes through uncompute_g_vectors (the batch's wedge, chi),
+    # the solution at the peak's omega is projected with the grain position, and the pixel goes forward again
+    margin, shalf = uncompute_margin(orc.g, lam, P["wedge"], P["chi"])
+    selg = sel & np.isfinite(orc.eta) & (margin > 1e-6) & (shalf > 1e-9) & (shalf < 1 - 1e-9)
+    if selg.any():
+        with np.errstate(invalid="ignore", divide="ignore"):
+            tthu, (e1, e2), (o1, o2) = tr.uncompute_g_vectors(np.ascontiguousarray(orc.g.T), lam, wedge=P["wedge"], chi=P["chi"])
+        cond = 1.0 / np.sqrt(np.maximum(margin, 1e-12))
+        tol = ANGTOL * 10 * cond
+        dd = lambda a, b: np.abs((a - b + 180.0) % 360.0 - 180.0)
+        with np.errstate(invalid="ignore"):
+            hit1 = (dd(o1, orc.oms) <= tol) & (dd(e1, orc.eta) <= tol)
+            hit2 = (dd(o2, orc.oms) <= tol) & (dd(e2, orc.eta) <= tol)
+        bad = selg & ~(hit1 | hit2)
+        J.ncmp += int(selg.sum())
+        if bad.any():
+            i = int(np.argmax(bad))
+            J.problems.append("uncompute_g_vectors(model g): neither (omega, eta) = (%r, %r), (%r, %r) is the peak's (%r, %r); g = %s"
+                              % (o1[i], e1[i], o2[i], e2[i], float(orc.oms[i]), float(orc.eta[i]), orc.g[i].tolist()))
+        selg = selg & (hit1 | hit2)
+        oms_u = np.where(selg, np.where(hit1, o1, o2), 0.0)
+        eta_u = np.where(selg, np.where(hit1, e1, e2), 0.0)
+        tth_u = np.where(selg, tthu, 0.0)
+        with np.errstate(invalid="ignore", divide="ignore"):
+            fg, sg = tr.compute_xyz_from_tth_eta(tth_u, eta_u, oms_u, t_x=t[0], t_y=t[1], t_z=t[2], wedge=P["wedge"],
+                                                 chi=P["chi"], **det)
+        fg, sg = np.where(selg, fg, 0.0), np.where(selg, sg, 0.0)
+        J.ok = selg
+        wg = widen * cond * 10
+        J.vec("compute_xyz_from_tth_eta(uncompute_g_vectors(model g)) slow pixel", sg, esc, widen=wg)
+        J.vec("compute_xyz_from_tth_eta(uncompute_g_vectors(model g)) fast pixel", fg, orc.fc, widen=wg)
+        # a pixel error dp moves g by about dp * pixel / (|d| lambda)
+        gscale = np.maximum(np.abs(orc.g).max(axis=1), 1e-300)
+        wgg = wg * (1.0 + np.maximum(np.abs(orc.sc), np.abs(orc.fc)) * max(abs(P["y_size"]), abs(P["z_size"]))
+                    / np.where(selg, absd * lam * gscale, 1.0))
+        eg = orc.g * (1 + 1e-6 if perturb == "ground" else 1)
+        omf = oms_u * sgn                       # omega as a peak file stores it
+        lab = "g -> uncompute_g_vectors -> compute_xyz_from_tth_eta -> %s -> g"
+        with np.errstate(invalid="ignore", divide="ignore"):
+            t2, e2_ = tr.compute_tth_eta(np.array([sg, fg]), omega=oms_u, **P)
+            J.vec(lab % "compute_tth_eta, compute_g_vectors", tr.compute_g_vectors(t2, e2_, oms_u, lam, wedge=P["wedge"],
+                                                                                   chi=P["chi"]).T, eg, widen=wgg)
+            J.vec(lab % "Ctransform.sf2gv", ct.sf2gv(sg.copy(), fg.copy(), omf.copy(), t[0], t[1], t[2]), eg, widen=wgg)
+            for fast in (True, False) if dear else ():
+                cf = rt.columnfile.colfile_from_dict({"sc": sg.copy(), "fc": fg.copy(), "omega": omf.copy()})
+                cf.updateGV(pars=rt.parameters.parameters(**P), fast=fast)
+                J.vec(lab % ("columnfile.updateGV(fast=%s)" % fast), np.array([cf.gx, cf.gy, cf.gz]).T, eg, widen=wgg)
+            if rt.pbp is not None:
+                J.vec(lab % "point_by_point.compute_gve", numba_gve(rt, P, sg, fg, oms_u), eg, widen=wgg)
+        J.ok = sel
+        if stats is not None:
+            k = int(selg.sum())
+            stats["g_roundtrip_rows"] = stats.get("g_roundtrip_rows", 0) + k
+            stats["g_roundtrip_rows_beyond_90"] = stats.get("g_roundtrip_rows_beyond_90", 0) + int((selg & orc.back).sum())
+            if any(t):
+                stats["g_roundtrip_rows_t_nonzero"] = stats.get("g_roundtrip_rows_t_nonzero", 0) + k
+                if rt.pbp is not None and k:
+                    stats.setdefault("g_roundtrip_numba_switch_sets_t_nonzero", set()).add(tuple(orc.par["sw"]))
     if stats is not None:
         stats["projection_single_row_calls"] = stats.get("projection_single_row_calls", 0) + 1
+        stats["projected_beyond_90"] = stats.get("projected_beyond_90", 0) + int((sel & orc.back).sum())
         inplane = orc.ok & ~sel
         if inplane.any():
             # rays in the detector plane share the batch with ordinary ones: the ordinary rows were judged above
@@ -1290,6 +1555,48 @@ def judge_inverse(rt, recs, perturb=None):
                 J.problems.append("neither solution (omega, eta) = (%r, %r), (%r, %r) is the generating (%r, %r) for g = %s "
                                   "(lambda %g wedge %g chi %g)" % (om1[i], eta1[i], om2[i], eta2[i], og, eg,
                                                                    g[:, i].tolist(), lam, wedge, chi))
+        # both solutions forward through the numba copy as well (the batch's wedge / chi, exact zeros included)
+        if rt.pbp is not None:
+            for lab, e, o in (("first", eta1, om1), ("second", eta2, om2)):
+                ok3 = np.isfinite(tth) & np.isfinite(e) & np.isfinite(o)
+                gn = rt.pbp.compute_g_vectors(np.where(ok3, tth, 0.0), np.where(ok3, e, 0.0), np.where(ok3, o, 0.0), lam,
+                                              wedge=float(wedge), chi=float(chi))
+                J.vec("%s solution pushed forward through point_by_point.compute_g_vectors" % lab,
+                      np.where(ok3, gn, np.nan).T, g.T, widen=cond)
+            stats["numba_forward_rows"] = stats.get("numba_forward_rows", 0) + 2 * int(val.sum())
+    # Bragg's law on the lab vector d of the inverse machine (BraggLaw of the model: |lambda g|^2 = 4 m^2 sin^2(theta),
+    # sin^2(theta) = ssq exactly, on both sides of two-theta = 90 degrees): the arctan-free forms and the arctan recipe
+    inv = np.array([r["mode"] == "inv" for r in recs])
+    if inv.any():
+        dq = np.array([[x / float(r["d"][1]) for x in r["d"][0]] if r["mode"] == "inv" else [1.0, 0.0, 0.0] for r in recs]).T
+        essq = np.array([r["ssq"][0] / float(r["ssq"][1]) if r["mode"] == "inv" else 0.0 for r in recs])
+        mm = np.array([float(r["m"]) for r in recs])
+        for i in np.nonzero(inv)[0]:
+            # (harness guard: the record's own numbers obey the law in unbounded integers)
+            gn_, gd_ = recs[i]["gam"]
+            if sum(x * x for x in gn_) * recs[i]["ssq"][1] != 4 * recs[i]["m"] ** 2 * recs[i]["ssq"][0] * gd_ * gd_:
+                raise common.MachineryError("record violates |lambda g|^2 = 4 m^2 sin^2(theta): %r" % (recs[i],))
+        und = arctanfree_undefined(dq)
+        wd = arctanfree_widen(dq)
+        if perturb == "ssq":
+            essq = essq * (1 + 1e-7)
+        J.ok = inv & ~und
+        with np.errstate(invalid="ignore", divide="ignore"):
+            s2 = tr.compute_sinsqth_from_xyz(dq.copy())
+            J.vec("transform.compute_sinsqth_from_xyz(d) = (|d| - d_x)/(2|d|)", s2, essq, widen=wd)
+            J.vec("transform.sinth2_sqrt_deriv(d)[0] = (|d| - d_x)/(2|d|)", tr.sinth2_sqrt_deriv(dq.copy())[0], essq, widen=wd)
+            J.vec("|g| = 2 m sqrt(compute_sinsqth_from_xyz(d))/lambda", 2 * mm * np.sqrt(s2) / lam, modg, widen=wd)
+        J.ok = inv
+        tq, eq = tr.compute_tth_eta_from_xyz(dq.copy(), None)
+        J.vec("sin^2(tth/2) of transform.compute_tth_eta_from_xyz(d) = (|d| - d_x)/(2|d|)", np.sin(np.radians(tq) / 2) ** 2, essq)
+        if rt.pbp is not None:
+            tq, eq = rt.pbp.compute_tth_eta_from_xyz(dq.copy(), np.zeros(n), 0.0, 0.0, 0.0, 0.0, 0.0)
+            J.vec("sin^2(tth/2) of point_by_point.compute_tth_eta_from_xyz(d) = (|d| - d_x)/(2|d|)",
+                  np.sin(np.radians(tq) / 2) ** 2, essq)
+        stats["bragg_rows"] = stats.get("bragg_rows", 0) + int(inv.sum())
+        stats["bragg_rows_beyond_90"] = stats.get("bragg_rows_beyond_90", 0) + int((inv & (dq[0] < 0)).sum())
+    onoff = "wedge %s chi %s" % ("on" if p0["wedge"] != [1, 0, 1] else "exactly 0", "on" if p0["chi"] != [1, 0, 1] else "exactly 0")
+    stats["batches with " + onoff] = 1
     return J, stats
 
 
